@@ -6,7 +6,8 @@ its shape: every construction of an `EosError` value in the solver modules is an
 branches of the conditions that guard it.  The rule takes the census of these rejections — (function, error variant,
 message tag) with the number of distinct branch edges that lead into it — and compares it with the reviewed table
 tables/r31.toml: a new rejection, or a reviewed rejection that can now be entered from more branches (`if rho <= 0 {Err}`
-widened to `if rho <= 0 || rho > max {Err}`), is reported.  Narrowing a rejection or re-ordering its tests is silent."""
+widened to `if rho <= 0 || rho > max {Err}`), is reported.  Re-ordering the tests of a rejection is silent; entering it from fewer branch edges (`a || b` turned into `a && b`: a
+precondition check that lets invalid input through) is reported as well."""
 import os
 import tomllib
 from collections import defaultdict
@@ -83,6 +84,12 @@ def run(F, scopes, rule_id="R31"):
             r.fail(iid + "|widened", sites[-1]["span"],
                    "%s: the rejection `EosError::%s(%s)` can now be entered from %d branch edge(s) at %d site(s) (reviewed: %d / %d): the set of "
                    "refused inputs was widened" % (fn, variant, tag, edges, len(sites), row.get("edges", 1), row.get("sites", 1)))
+        elif len(sites) < row.get("sites", 1) or edges < row.get("edges", 1):
+            r.inst(iid, sites[-1]["span"], "violation", sites=len(sites), edges=edges)
+            r.fail(iid + "|narrowed", sites[-1]["span"],
+                   "%s: the rejection `EosError::%s(%s)` is entered from %d branch edge(s) at %d site(s) only (reviewed: %d / %d): a precondition that "
+                   "used to refuse the input (`a || b`) now needs all of its parts to hold (`a && b`) — inputs without a solution are accepted"
+                   % (fn, variant, tag, edges, len(sites), row.get("edges", 1), row.get("sites", 1)))
         else:
             r.inst(iid, sites[0]["span"], "ok", sites=len(sites), edges=edges)
     r.floor("explicit rejections examined", n, 1)
